@@ -16,6 +16,7 @@ from . import c01
 ID = "C08"
 TITLE = "Field offsets and in-language layout intrinsics equal the real bit positions"
 RULE = (
+    "(Before the complete iteration 0..3 iterations over the same object are abandoned after a drawn number of items, from the same base or the default one; the default-base iteration must list every field too.)  "
     "Cases: (a) composite spec (struct / union / delimited, nested, capacities <= 12) x base offset set (1..3 values 0..130, aligned or "
     "not) x 4 drawn values; (b) fixed-length array spec x base; (c) DSDL text of a struct / union message or of a service (request and response sections) with `@print _offset_` after every "
     "field and `@print T._bit_length_` / `T._extent_` for every dependency.  Oracles: the offset of field i is the set "
